@@ -1,7 +1,7 @@
 SPEC = dict(
     property='C03',
     level='other',
-    level_text='Bounded (labelled) agreement of the two real calculators: for 31 annotation texts covering every modification position / kind, '
+    level_text='Mixed. BOUNDED (labelled): agreement of the two real calculators end to end: for 37 annotation texts covering every modification position / kind, '
                'multipliers, alternatives, tags, intervals, labile and unknown modifications, static rules, isotope labels, charges and '
                'adducts x all 18 ion types x (charge sign, isotope, mode) tuples, mass() == chem_mass(comp_mass() composition) + reported '
                'residual within 1e-4 (mono) / 1e-3 + 5 ppm (average), and the averagine estimate has the same monoisotopic mass; '
@@ -16,8 +16,10 @@ SPEC = dict(
                'masses, and the cy adduct-text defect found here shows what a ground comparison of FRAGMENT_ION_BASE_CHARGE_ADDUCTS with '
                'FRAGMENT_ION_COMPOSITIONS decides (added as ground obligations).',
     design_ref='DESIGN.md section 6, C03',
-    technique='bounded run-time relational check of the two real calculators (labelled stand-in) + ground obligations on the ion tables; '
-              'relies on adjust_mass contract proved under C02',
+    technique='contract-based deductive verification of the two sides part by part (composition side: _sequence_comp and the charge-carrier '
+              'compositions, contracts/seqcomp.py; mass side: mass(), contracts/masssum.py; labelled peptides: mass() IS the composition mass) + '
+              'ground obligations linking the mass tables to the composition tables + bounded end-to-end relational check (labelled stand-in) for '
+              'the glue of comp_mass and the per-modification link',
     contracts=['masssum', 'seqcomp'], targets={'masssum': ['peptacular.mass_calc:mass']},
     ground=[dict(module='ground.c03_tables')],
     bounded=[dict(name='C03-bounded', script='bounded/C03.py')],
